@@ -547,6 +547,22 @@ func AccessAtoms() []Atom {
 		add("method/"+recv+".call", "x := "+recv+".Get(ept); _ = x")
 		add("method/"+recv+".call", "x := "+recv+".Inc(pept, 2); _ = x")
 	}
+	// keyed array and slice literals: keys in and out of order, open arrays whose length is the largest index + 1
+	for _, lit := range []string{"[...]int{5: 1, 2: 3}", "[...]int{2: 3, 5: 1}", "[...]string{3: \"x\", 0: \"y\", \"z\"}", "[...]int{9: 1, 2}", "[...]int{1, 2, 3}", "[...]int{}", "[...]int{4: 0}", "[...]int{4: 0, 1: 1, 2}",
+		"[...]int{7: 1, 0: 2, 3: 4, 5}", "[...]MyInt{2: 1, 0: 5}", "[...][2]int{1: {1, 2}, 0: {3}}", "[...]int{1: 1, 1: 2}", "[...]int{-1: 1}", "[...]int{i: 1}", "[...]int{ci: 1, 2}", "[...]int{'a': 1}", "[...]int{1.0: 1}", "[...]int{2.5: 1}",
+		"[4]int{3: 1, 0: 2}", "[4]int{3: 1, 2}", "[4]int{4: 1}", "[2]int{1, 2, 3}", "[]int{5: 1, 2: 3}", "[]int{3: 1, 2}", "[]string{2: \"a\", 0: \"b\"}", "[]int{1: 1, 1: 2}", "[]int{-1: 1}", "[]int{i: 1}",
+		"map[int]int{1: 1, 1: 2}", "map[string]int{\"a\": 1, \"a\": 2}", "[...]struct{ A int }{2: {1}, {2}}", "[...]*MyStruct{1: {A: 1}, 0: nil}"} {
+		add("keyedlit/"+lit, "_ = "+lit)
+		add("keyedlit/"+lit+"/define", "x := "+lit+"; _ = x")
+		add("keyedlit/"+lit, "_ = len("+lit+")")
+		add("keyedlit/"+lit, "var x = "+lit+"; _ = x[0]")
+	}
+	// a label as the last item of a block (Go: the label of an empty statement), in every kind of block
+	for _, body := range []string{"goto L; L:", "for i := 0; i < 2; i++ { if i > 0 { continue }; goto L; L: }", "if b { goto L; L: }", "if b { } else { goto L; L: }", "switch { case b: goto L; L: }", "switch i { default: goto L; L: }",
+		"{ goto L; L: }", "func() { goto L; L: }()", "select { default: goto L; L: }", "for range sl { goto L; L: }", "switch a.(type) { case int: goto L; L: }", "for { goto L; L: }", "L: for { break L }; goto M; M:", "if b { goto L }; L:",
+		"for i := range 3 { _ = i; goto L; L: }", "_ = func() int { goto L; L: return 1 }", "defer func() { goto L; L: }()"} {
+		add("labelend/"+body, body)
+	}
 	for _, s := range []string{"_ = st.A", "_ = pst.A", "_ = (*pst).B", "_ = (&st).A", "_ = mi.M()", "_ = mi.M", "_ = MyInt.M", "_ = (*MyInt).M", "_ = mif.M()", "_ = e.Error()", "_ = st.C", "_ = i.x", "_ = unsafe.Pointer(p)",
 		"_ = *p", "_ = *pst", "_ = **&p", "_ = &i", "_ = &st.A", "_ = &sl[0]", "_ = &ar[1]", "_ = &m[\"k\"]", "_ = &s[0]", "_ = &fn", "_ = &MyStruct{}", "_ = &[]int{1}", "_ = &1", "_ = &i8", "_ = &two",
 		"_ = ar[3]", "_ = ar[2]", "_ = par[3]", "_ = [3]int{}[3]", "_ = \"abc\"[3]", "_ = \"abc\"[2]", "const k = \"abc\"[1]; _ = k", "_ = sl[1<<62]", "_ = ar[-1]", "_ = sl[-1]", "_ = s[1:0]", "_ = \"abc\"[1:4]", "_ = ar[1:4]",
